@@ -18,6 +18,7 @@ func zzC05FS() *zzFS {
 		"outer.vuego":             `<div class="outer"><template include="c.vuego" :a="oa" b="static-b"></template>{oa={{ oa }}}</div>`,
 		"req.vuego":               `<template :required="must, also"><i>{{ must }}/{{ also }}</i></template>`,
 		"req1.vuego":              `<template :require="must"><i>{{ must }}</i></template>`,
+		"reqfm.vuego":             "---\nmust: FM-M\n---\n<template :required=\"must, also\"><i>{{ must }}/{{ also }}</i></template>",
 		"components/my-card.vuego": `<section class="card">[{{ title }}|{{ n }}]</section>`,
 	})
 }
@@ -133,6 +134,7 @@ func VerifC05_Required() {
 	haveMust := zzChoice("must", 3) // 0 absent, 1 prop, 2 includer variable
 	haveAlso := zzChoice("also", 3)
 	single := zzBool("single")
+	fmDefines := !single && zzBool("frontmatterDefinesMust")
 	data := map[string]any{}
 	props := ""
 	switch haveMust {
@@ -151,12 +153,15 @@ func VerifC05_Required() {
 	if single {
 		file = "req1.vuego"
 	}
+	if fmDefines {
+		file = "reqfm.vuego"
+	}
 	body := `<div><template include="` + file + `"` + props + `></template></div>`
 	out, err := zzRender(NewFS(zzC05FS()), body, data)
 	zzNote("template", body)
 	zzNote("out", out)
 	missing := ""
-	if haveMust == 0 {
+	if haveMust == 0 && !fmDefines {
 		missing = "must"
 	} else if haveAlso == 0 && !single {
 		missing = "also"
@@ -166,7 +171,11 @@ func VerifC05_Required() {
 	}
 	if missing == "" {
 		zzAssert(err == nil, "C05.required.spurious-error")
-		zzAssert(strings.Contains(out, "<i>M"), "C05.required.renders")
+		if fmDefines {
+			zzAssert(strings.Contains(out, "<i>FM-M/"), "C05.required.renders")
+		} else {
+			zzAssert(strings.Contains(out, "<i>M"), "C05.required.renders")
+		}
 	} else {
 		zzAssert(err != nil, "C05.required.missing-not-reported")
 		zzAssert(strings.Contains(err.Error(), "'"+missing+"'"), "C05.required.error-names-variable")
